@@ -16,6 +16,7 @@
 import SA.Proofs.Policy
 import SA.Gen.Locks
 import SA.Gen.C17
+import SA.Model.KeepAlive
 import SA.Gen.PkgVars
 namespace SA.Policy
 
@@ -721,3 +722,35 @@ end SA.PkgState
 
 #print axioms SA.PkgState.C16_no_hidden_process_state
 #print axioms SA.Policy.C16_mux_timing_is_default_on_both_ends
+
+namespace SA.KeepAlive
+/-- **idle_session_survives**: whenever the peer's keep-alive interval is positive and not longer than this end's
+    time-out, EVERY time-out period of an idle session contains a frame from the peer, so the end never closes it — for all
+    intervals, time-outs and periods.  Both ends run the library's default timing (theorem
+    `C16_mux_timing_is_default_on_both_ends`: the code assigns only the frame size), and the library refuses a
+    configuration whose interval exceeds its time-out, so the hypothesis holds in both directions. -/
+theorem C16_idle_session_survives (I T : Nat) (hI : 0 < I) (hIT : I ≤ T) (n : Nat) : periodHasFrame I T n = true := by
+  unfold periodHasFrame
+  have h1 := Nat.div_add_mod ((n + 1) * T) I
+  have h2 := Nat.mod_lt ((n + 1) * T) hI
+  have h3 : (n + 1) * T = n * T + T := Nat.succ_mul n T
+  have h4 : (n + 1) * T / I * I = I * ((n + 1) * T / I) := Nat.mul_comm _ _
+  simp only [decide_eq_true_eq]
+  omega
+
+theorem C16_idle_session_survives_any_time (I T : Nat) (hI : 0 < I) (hIT : I ≤ T) (periods : Nat) :
+    survives I T periods = true := by
+  unfold survives
+  simp only [List.all_eq_true]
+  intro n _
+  exact C16_idle_session_survives I T hI hIT n
+
+/-- witness: an end that tolerates 4 s of silence against a peer that sends every 10 s closes an idle, healthy session in
+    its very first period; with the library's 10 s / 30 s on both ends it does not -/
+theorem C16_witness_short_timeout : periodHasFrame 10 4 0 = false ∧ survives 10 30 1000 = true := by
+  refine ⟨by decide, C16_idle_session_survives_any_time 10 30 (by omega) (by omega) 1000⟩
+end SA.KeepAlive
+
+#print axioms SA.KeepAlive.C16_idle_session_survives
+#print axioms SA.KeepAlive.C16_idle_session_survives_any_time
+#print axioms SA.KeepAlive.C16_witness_short_timeout
